@@ -28,7 +28,7 @@ def run(ctx):
     cli = os.path.join(vlib.CLI_TARGET, "debug", "nitrogql-cli")
     return vlib.standard_check(
         ctx,
-        targets=["C06/Properties.vo", "C06/Corr.vo"],
+        targets=["C06/Corr.vo", "C06/Properties.vo", "C06/PropertiesDefs.vo"],
         pinned="C06/Pinned.v",
         binname="c06",
         gen=gen,
